@@ -461,6 +461,57 @@ def app_case(role, flavour, name):
                 frames = [R.enc_request(R.REQUEST_CHANNEL, sid, b'boom', n=2), R.enc_payload(sid, b'u1'),
                           R.enc_payload(sid, b'', complete=True, next=False) if where != 'E' else R.enc_error(sid, 0x201, b'e')]
                 off = {sid}
+            elif name.startswith('router-raises-'):
+                from rsocket.routing.request_router import RequestRouter
+                from rsocket.routing.routing_request_handler import RoutingRequestHandler
+                from rsocket.extensions.helpers import composite, route
+                meth = name[len('router-raises-'):]
+                router = RequestRouter()
+                kind = {'request_response': 'response', 'request_stream': 'stream', 'request_channel': 'channel',
+                        'request_fire_and_forget': 'fire_and_forget', 'on_metadata_push': 'metadata_push'}[meth]
+
+                @getattr(router, kind)('explode')
+                async def exploding(payload):
+                    raise AppRaise('routed handler raises')
+
+                routing = RoutingRequestHandler(router)
+                md = bytes(composite(route('explode')))
+                extra[meth] = ('special', lambda h, p, routing=routing, meth=meth: getattr(routing, meth)(p))
+                raw = {'request_response': R.enc_request(R.REQUEST_RESPONSE, sid, b'boom', md),
+                       'request_stream': R.enc_request(R.REQUEST_STREAM, sid, b'boom', md, n=2),
+                       'request_channel': R.enc_request(R.REQUEST_CHANNEL, sid, b'boom', md, n=2),
+                       'request_fire_and_forget': R.enc_request(R.REQUEST_FNF, sid, b'boom', md),
+                       'on_metadata_push': R.enc_metadata_push(b'boom' + md)}[meth]
+                if meth == 'on_metadata_push':
+                    extra[meth] = ('special', lambda h, p, routing=routing: routing.on_metadata_push(P(None, bytes(p.metadata)[4:])))
+                frames, off = [raw], ({0} if meth == 'on_metadata_push' else {sid})
+            elif name.startswith('rx3-') or name.startswith('rx4-'):
+                if name.startswith('rx3-'):
+                    import rx as RX
+                    from rsocket.rx_support.rx_handler_adapter import RxHandlerAdapter as Adapter
+                    from rsocket.rx_support.rx_handler import BaseRxHandler as Base
+                else:
+                    import reactivex as RX
+                    from rsocket.reactivex.reactivex_handler_adapter import ReactivexHandlerAdapter as Adapter
+                    from rsocket.reactivex.reactivex_handler import BaseReactivexHandler as Base
+                what = name.split('-', 1)[1]
+
+                class H(Base):
+                    async def request_stream(self, payload):
+                        if what == 'observable-errors-at-once':
+                            return RX.throw(RuntimeError('rx boom'))
+                        return RX.concat(RX.of(P(b'ok')), RX.throw(RuntimeError('rx boom')))
+
+                    async def request_response(self, payload):
+                        return RX.throw(RuntimeError('rx boom'))
+
+                adapter = Adapter(H())
+                if what == 'response-errors':
+                    extra['request_response'] = ('special', lambda h, p: adapter.request_response(p))
+                    frames, off = [R.enc_request(R.REQUEST_RESPONSE, sid, b'boom')], {sid}
+                else:
+                    extra['request_stream'] = ('special', lambda h, p: adapter.request_stream(p))
+                    frames, off = [R.enc_request(R.REQUEST_STREAM, sid, b'boom', n=5)], {sid}
             else:
                 raise ValueError(name)
             b_ = Bench('server', flavour)
@@ -520,7 +571,9 @@ APP_CASES_SERVER = (['handler-%s-raises%s' % (m, a) for m in ('request_response'
                                                              'request_fire_and_forget', 'on_metadata_push') for a in ('', '-after-await')]
                     + ['future-fails', 'publisher-raises-subscribe', 'publisher-raises-request', 'publisher-raises-cancel',
                        'generator-raises', 'async-generator-raises', 'channel-subscriber-raises-S', 'channel-subscriber-raises-N',
-                       'channel-subscriber-raises-C', 'channel-subscriber-raises-E'])
+                       'channel-subscriber-raises-C', 'channel-subscriber-raises-E']
+                    + ['router-raises-%s' % m for m in ('request_response', 'request_stream', 'request_channel', 'request_fire_and_forget', 'on_metadata_push')]
+                    + ['%s-%s' % (a, wh) for a in ('rx3', 'rx4') for wh in ('observable-errors-at-once', 'observable-errors-after-one', 'response-errors')])
 APP_CASES_CLIENT = ['stream-subscriber-raises-S', 'stream-subscriber-raises-N', 'stream-subscriber-raises-C', 'stream-subscriber-raises-E']
 
 
